@@ -706,7 +706,7 @@ def plain_spec(rng, kind, holes=None):
         return ['ellipse', c, rng.choice([3000, 2345.75]), rng.choice([1000, 987.25]), rng.choice([33, 45, 100.5]),
                 plain_holes(rng, cx, cy, nh), None]
     if kind in ('ring', 'wedge'):
-        c = c[:2]       # (a wedge with a Z centre cannot be hashed on the unchanged tree: its centroid goes through a Z polygon - reported)
+        # (a wedge with a Z centre could not be hashed before repair D47, eaff09c: its centroid goes through a Z polygon; kept as a regression case)
         a0, a1 = (0, 360) if kind == 'ring' else (rng.choice([15, 45.5]), rng.choice([140, 200.25]))
         return ['ring', c, rng.choice([100, 321.5]), rng.choice([900, 1765.25]), a0, a1, plain_holes(rng, cx, cy, nh), None]
     n = rng.choice([1, 2, 3])
